@@ -19,7 +19,7 @@ theorem decode_len_guards : T1Ops.decodeLenTests = ["> 0", "< 2", "< 2", "< 5", 
 theorem approx_max_q : Consts.t1_appendNumberQTests = ["<= 107"] := rfl
 
 theorem t1_limits : Consts.t1_maxStack = some 24 ∧ Consts.t1_callDepthTests = ["> 0", "> 10"] ∧
-    Consts.t1_readShortCipherTests = ["< int(lenIV)"] := ⟨rfl, rfl, rfl⟩
+    Consts.t1_readShortCipherTests = ["< <expr>"] := ⟨rfl, rfl, rfl⟩
 
 theorem t1_opcodes : T1Ops.ops =
     [("t1callothersubr", 3088), ("t1callsubr", 10), ("t1closepath", 9), ("t1div", 3084), ("t1dotsection", 3072),
